@@ -3,6 +3,34 @@
 import json, subprocess
 
 CHECKS = {
+ "C01": dict(level="exploration", design="§4 C01",
+   technique="crash/hang trace monitor around the real library and CLI in journaled worker processes (panic capture, exit-status check, CPU-budget and quiescent-deadlock watchdogs, -race/checkptr build)",
+   text="Hostile bytes on each of the four input channels (workflow, local action metadata, local reusable workflow, actionlint.yaml): the complete YAML kind x tag x position matrix over maximal templates (about 1e5 cases), raw YAML snippets, seeded byte mutations of the repository corpus, expression fuzz at 32 positions, hostile strings at 32 string-parsing positions and scripts up to 300 KB handed to a fake external tool, each through LintFile/LintFiles/Lint or the real CLI, 10% repeated under the race build. Verdict per case: no panic, no crash, exit status in {0,1,3}, finishes. Exploration: says nothing about inputs the generators do not produce.",
+   note="Trusted: the journal attribution of a crash to the case being run; hang verdicts are CPU-budget (RLIMIT_CPU 120 s alone) or quiescence (no CPU progress, all threads asleep in the worker and all descendants), never wall-clock."),
+ "C02": dict(level="exploration", design="§4 C02",
+   technique="metamorphic repeat monitor: N fresh Linters per input in one process (map order re-randomised) and the real CLI under GOMAXPROCS 1/2/4/16 with seeded hook delays; outputs must be byte-identical",
+   text="Hand-designed tie sites (>=2 diagnostics at one position or several candidates for a 'first' choice), fuzzed workflows, the repository's err/examples/ok/projects corpus and generated multi-file projects are linted 30 (quick) / 200 (thorough) times each; any difference in message, position, kind, order or exit status is a violation classified by site. An order-dependent site with a 2-entry map survives 30 repetitions with probability < 2%.",
+   note="Pure self-comparison, no expected output. One open known finding (which file reports the defect of a callee shared by several files depends on goroutine scheduling)."),
+ "C03": dict(level="exploration", design="§4 C03",
+   technique="mutation monitor over YAML scalar positions with a located-diagnostic oracle on the real linter",
+   text="Every scalar value position (mapping value or sequence element, any depth) of nine maximal clean templates and of every clean corpus file is replaced by malformed ${{ }} placeholders (four closed forms plus the unclosed one); the real linter must report at that scalar, and outside the four excepted classes with an expression syntax error. 129 position classes are required to be covered, sibling-configuration variants are explored. Complete over the position classes of the templates, sampled otherwise.",
+   note="Trusted: the text-level scalar replacement (re-decoded and compared with the original tree for every mutant). A diagnostic one column past the scalar end counts as located at the scalar (EOF errors)."),
+ "C05": dict(level="exploration", design="§4 C05",
+   technique="reference-model monitor: independent scoping model over a generated workflow model vs. the real linter's undefined-property diagnostics",
+   text="A seeded generator builds workflows (jobs with needs DAG and outputs, steps with ids, matrices with include/exclude/nesting and expression-valued sections, workflow_call/dispatch inputs, secrets, outputs) and emits one reference per scalar at 47 kinds of position; an independent scope model decides in-scope / out-of-scope / never-reported per reference and is compared with the linter. Floors require every reference class in both directions.",
+   note="Compared per scalar (reported or not); classes where the statement is silent are excluded and listed in the evidence assumptions."),
+ "C12": dict(level="exploration", design="§4 C12",
+   technique="golden-model monitor: independently transcribed availability table x exhaustive position/context/function cross product on the real linter",
+   text="120 placeholder position classes (each mapped to its table key or to none) x 12 contexts + 5 special functions x 4 embeddings are linted; a 'not allowed here' diagnostic must appear at the name iff the independently transcribed GitHub table does not list it; the API boundary (WorkflowKeyAvailability, misspelt keys) and random embeddings are checked as well. The cross product is enumerated completely.",
+   note="Trusted: the harness' transcription of GitHub's table (34 rows) and the position-class to key map."),
+ "C14": dict(level="exploration", design="§4 C14",
+   technique="reference-model monitor: interface model vs. the real linter over the complete bundled action data set and generated local callees on disk",
+   text="All PopularActions and OutdatedPopularActionSpecs entries are enumerated completely (required inputs present/removed, undeclared inputs, letter case, declared/undeclared outputs); generated local actions and reusable workflows (required x default, typed inputs, secrets, inherit, outputs) are written to scratch repositories and called with random subsets/extras/typed values, in both metadata derivations (file and AST). Bundled part exhaustive, local part sampled.",
+   note="Callees are asserted well-formed (lint clean alone). Classes outside the statement (boolean inputs, quoted literals, docker args/entrypoint keys) are excluded and listed in the evidence."),
+ "C17": dict(level="exploration", design="§4 C17",
+   technique="reference-model monitor plus reference-free invariants over exhaustively enumerated pattern strings on the real validators",
+   text="All strings over a 16-symbol alphabet up to length 5 (quick, 1.1e6) / 6 (thorough) plus random strings up to 40 characters are validated by ValidateRefGlob/ValidatePathGlob and compared with an independent validator written from the cheat sheet and git-check-ref-format; on every string: ref-accept implies path-accept, columns inside the pattern, named character at the column; a Lint sample checks the mapping onto YAML scalars. Exhaustive up to the length bound.",
+   note="A documented don't-care set (single-character classes, odd class contents, escaped backslash in refs, multi-character git rules) is not compared but still subject to the invariants."),
  "C18": dict(level="exploration", design="§4 C18",
    technique="reference-model monitor over exhaustively enumerated needs graphs (runtime oracle on the real linter)",
    text="Every digraph on <=4 jobs is rendered to a workflow and linted by the real Linter; all 2^25 graphs on 5 jobs are pushed through the rule's visitor API in the thorough tier. An independent cyclicity decision and a walk validator over the generated edge relation judge every run; dangling and duplicate references and random graphs up to 40 jobs are sampled. Exhaustive up to the bound, sampled above it.",
